@@ -206,7 +206,11 @@ func (m *vMachine) c13Delta(i int, op vOp, pre *c13Snap) {
 	switch op.K {
 	case "lcreate", "ldeposit", "lwithdraw", "lclose", "lcalc", "lsr":
 		opApp = cfg.Lockers[op.L].App
-	case "block", "price", "unsolicited", "lunsol":
+	case "block":
+		if cfg.Liq != nil {
+			opApp = -2 // automatic limit-order bids close auctions inside the block hooks: any app's penalty may arrive
+		}
+	case "price", "unsolicited", "lunsol":
 	case "bid":
 		// a bid belongs to the app of the auction it is placed on (which may have been closed by it)
 		opApp = -2
